@@ -17,7 +17,7 @@ func genRelatedRules(c *vs.Case, namespacedParent bool) ([]map[string]any, bool,
 		res := c.PickStr("configmaps", "configmaps", "widgets", "cwidgets")
 		d := map[string]string{"configmaps": "v1", "widgets": "ex.io/v1", "cwidgets": "ex.io/v1"}[res]
 		r := map[string]any{"apiVersion": d, "resource": res}
-		switch c.Int(9) {
+		switch c.Int(10) {
 		case 0:
 			r["labelSelector"] = map[string]any{"matchLabels": map[string]any{"rel": "yes"}}
 		case 1:
@@ -47,6 +47,17 @@ func genRelatedRules(c *vs.Case, namespacedParent bool) ([]map[string]any, bool,
 			}
 			invalid = true
 			why = "rule combines labelSelector with namespace/names"
+		case 8: // a selector of the right shape that cannot be converted
+			switch c.Int(3) {
+			case 0:
+				r["labelSelector"] = map[string]any{"matchExpressions": []any{map[string]any{"key": "rel", "operator": "Within", "values": []any{"yes"}}}}
+			case 1:
+				r["labelSelector"] = map[string]any{"matchExpressions": []any{map[string]any{"key": "rel", "operator": "In", "values": []any{}}}}
+			default:
+				r["labelSelector"] = map[string]any{"matchLabels": map[string]any{"bad key!": "x"}}
+			}
+			invalid = true
+			why = "label selector cannot be converted"
 		case 7: // another namespace than the (namespaced) parent's
 			r["namespace"] = "ns2"
 			if c.Bool() {
